@@ -1,5 +1,5 @@
 /- L0 facts about the accessors, Display and Default of RateOfChange (split from Lemmas/RateOfChange.lean so that a change to one method only invalidates the facts about that method) -/
-import TaRs.Lemmas.RateOfChange
+import TaRs.Lemmas.Core.RateOfChange
 set_option linter.unusedSectionVars false
 namespace TaRs.Gen.RateOfChange
 open TaRs TaRs.Rs
